@@ -573,7 +573,7 @@ func (r *checkRun) matchStaticKF(sr *StaticResult, failure string) *KnownFinding
 func round2(f float64) float64 { return float64(int(f*100+0.5)) / 100 }
 
 func sortedSet(m map[string]bool) []string {
-	var out []string
+	out := []string{}
 	for k := range m {
 		out = append(out, k)
 	}
@@ -582,6 +582,9 @@ func sortedSet(m map[string]bool) []string {
 }
 
 func (r *checkRun) writeEvidence(cov map[string]interface{}, violations int, assumptions []string) {
+	if assumptions == nil {
+		assumptions = []string{}
+	}
 	if cov == nil {
 		cov = map[string]interface{}{"obligations": 0, "discharged": 0, "checker_cmd": "bin/pverif check " + r.prop.ID, "trusted_base": []string{}, "explanation": "check could not run"}
 	}
